@@ -4,4 +4,6 @@ open GoMail.Props.C12
 #print axioms plan_sink_failure
 #print axioms sink_failure_reported
 #print axioms success_count
-#print axioms producer_failure_reported_partial
+#print axioms producer_failure_reported_plan
+#print axioms producer_failure_reported
+#print axioms writeTo_reports_producer_failure
